@@ -494,6 +494,29 @@ func CheckC08(c *C08Case, st *Stats) error {
 			return errf("the clone shares a container with the original: %s (tree %s)", showAny(id), origSnap.Tree.Show())
 		}
 	}
+	// a clone OF THE CLONE, taken at once (work := doc.Clone(); snap := work.Clone()): it must stay as it is
+	// whatever happens to the other two afterwards, and share nothing with either
+	var clone2 any
+	if p, panicked := catch(func() { clone2 = cloneOf(clone) }); panicked {
+		return errf("Clone of the clone panicked: %v", p)
+	}
+	clone2Snap, err := TakeIdentSnap(clone2)
+	if err != nil {
+		return err
+	}
+	if !EqVBits(clone2Snap.Tree, origSnap.Tree) {
+		return errf("the clone of the clone differs: %s vs %s", clone2Snap.Tree.Show(), origSnap.Tree.Show())
+	}
+	for _, id := range clone2Snap.IDs {
+		if origIDs[id] {
+			return errf("the clone of the clone shares a container with the original: %s", showAny(id))
+		}
+		for _, cid := range cloneSnap.IDs {
+			if id == cid {
+				return errf("the clone of the clone shares a container with the clone: %s", showAny(id))
+			}
+		}
+	}
 	deep := origSnap.Tree.Depth() >= 3
 	nonRootHit := false
 	sides := []any{orig, clone}
@@ -537,6 +560,11 @@ func CheckC08(c *C08Case, st *Stats) error {
 	}
 	if deep && nonRootHit {
 		st.MarkNonTrivial()
+	}
+	if now2, err := TakeIdentSnap(clone2); err != nil {
+		return err
+	} else if !clone2Snap.Same(now2) {
+		return errf("the mutations of the original and of the clone changed the clone of the clone (taken before them):\n before: %s\n after:  %s", clone2Snap.Tree.Show(), now2.Tree.Show())
 	}
 	// cloning again after the history of mutations: a deep copy of the container as it is NOW
 	for side := range sides {
